@@ -125,4 +125,79 @@ example : castIntTo .short (-32769) = 32767 := by decide
 example : castStrTo .byte "  -128 ".toList = some (some (-128)) := by decide
 example : castStrTo .byte "128".toList = some none := by decide
 
+
+/-! ### date strings -/
+
+/-- a non-empty run of ASCII digits -/
+def IsDigits (s : List Char) : Prop := s ≠ [] ∧ ∀ c ∈ s, (digitVal c).isSome = true
+/-- the optional time part: nothing, or a space or `T` followed by anything -/
+def TimeTail (t : List Char) : Prop := t = [] ∨ ∃ rest, t = ' ' :: rest ∨ t = 'T' :: rest
+
+-- OBLIGATION: PysparklingVerif.C18.date_string_forms
+/-- a string of the form yyyy, yyyy-m[m] or yyyy-m[m]-d[d] (four year digits; month and day any non-empty digit
+runs), optionally followed by a space or `T` and an arbitrary time part, casts to that calendar date when it
+exists (missing month / day default to 1) and to null otherwise -/
+theorem date_string_forms (ys ms ds tail : List Char) (y m d : Nat)
+    (hy : IsDigits ys) (hy4 : ys.length = 4) (hm : IsDigits ms) (hd : IsDigits ds)
+    (py : parseNat ys = some y) (pm : parseNat ms = some m) (pd : parseNat ds = some d) (ht : TimeTail tail) :
+    castStrDate (ys ++ tail) = (if validDate y 1 1 then some ((y : Int), 1, 1) else none) ∧
+    castStrDate (ys ++ '-' :: ms ++ tail) = (if validDate y m 1 then some ((y : Int), (m : Int), 1) else none) ∧
+    castStrDate (ys ++ '-' :: ms ++ '-' :: ds ++ tail) = (if validDate y m d then some ((y : Int), (m : Int), (d : Int)) else none) := by
+  obtain ⟨hyne, hyd⟩ := hy
+  obtain ⟨_, hmd⟩ := hm
+  obtain ⟨_, hdd⟩ := hd
+  have dig : ∀ xs : List Char, (∀ c ∈ xs, (digitVal c).isSome = true) →
+      ∀ c ∈ xs, c ≠ ' ' ∧ c ≠ 'T' ∧ isWs c = false := fun xs hx c hc =>
+    ⟨(digit_char_facts c (hx c hc)).1, (digit_char_facts c (hx c hc)).2.1, (digit_char_facts c (hx c hc)).2.2.2.2⟩
+  have nodash : ∀ xs : List Char, (∀ c ∈ xs, (digitVal c).isSome = true) → '-' ∉ xs := fun xs hx hc =>
+    (digit_char_facts _ (hx _ hc)).2.2.1 rfl
+  have hdash : '-' ≠ ' ' ∧ '-' ≠ 'T' ∧ isWs '-' = false := by decide
+  have iy := parseInt_digits ys y hyd py
+  have im := parseInt_digits ms m hmd pm
+  have id := parseInt_digits ds d hdd pd
+  refine ⟨?_, ?_, ?_⟩
+  · rw [castStrDate_eq, dateCut_append ys tail hyne (dig ys hyd) ht, splitOn_of_not_mem _ _ (nodash ys hyd)]
+    simp [dateOfComps, hy4, iy]
+  · have hc : ∀ c ∈ ys ++ '-' :: ms, c ≠ ' ' ∧ c ≠ 'T' ∧ isWs c = false := by
+      intro c hc
+      simp only [List.mem_append, List.mem_cons] at hc
+      rcases hc with h | rfl | h
+      · exact dig ys hyd c h
+      · exact hdash
+      · exact dig ms hmd c h
+    rw [castStrDate_eq, dateCut_append (ys ++ '-' :: ms) tail (by simp) hc ht,
+      splitOn_append_sep _ _ _ (nodash ys hyd), splitOn_of_not_mem _ _ (nodash ms hmd)]
+    simp [dateOfComps, hy4, iy, im]
+  · have hc : ∀ c ∈ ys ++ '-' :: ms ++ '-' :: ds, c ≠ ' ' ∧ c ≠ 'T' ∧ isWs c = false := by
+      intro c hc
+      simp only [List.mem_append, List.mem_cons] at hc
+      rcases hc with (h | rfl | h) | rfl | h
+      · exact dig ys hyd c h
+      · exact hdash
+      · exact dig ms hmd c h
+      · exact hdash
+      · exact dig ds hdd c h
+    have hassoc : ys ++ '-' :: ms ++ '-' :: ds = ys ++ '-' :: (ms ++ '-' :: ds) := by simp
+    rw [castStrDate_eq, dateCut_append (ys ++ '-' :: ms ++ '-' :: ds) tail (by simp) hc ht, hassoc,
+      splitOn_append_sep _ _ _ (nodash ys hyd), splitOn_append_sep _ _ _ (nodash ms hmd),
+      splitOn_of_not_mem _ _ (nodash ds hdd)]
+    simp [dateOfComps, hy4, iy, im, id]
+
+-- OBLIGATION: PysparklingVerif.C18.valid_date_is_calendar
+/-- `validDate` is the Gregorian calendar: months 1..12, days up to 31/30/28, 29 February exactly in leap years
+(divisible by 4 and not by 100, or by 400), years 1..9999 -/
+theorem valid_date_is_calendar (y m d : Nat) :
+    validDate y m d = true ↔
+      (1 ≤ y ∧ y ≤ 9999 ∧ 1 ≤ m ∧ m ≤ 12 ∧ 1 ≤ d ∧
+        d ≤ (if m = 2 then (if (y % 4 = 0 ∧ y % 100 ≠ 0) ∨ y % 400 = 0 then 29 else 28)
+             else if m = 4 ∨ m = 6 ∨ m = 9 ∨ m = 11 then 30 else 31)) :=
+  validDate_iff y m d
+
+example : castStrDate "2020-2-29 12:30:00".toList = some (2020, 2, 29) := by decide +kernel
+example : castStrDate "2019-02-29".toList = none := by decide +kernel
+example : castStrDate "1999T".toList = some (1999, 1, 1) := by decide +kernel
+example : IsDigits "02".toList ∧ TimeTail " 12:30".toList := by
+  refine ⟨⟨by decide, by decide⟩, Or.inr ⟨"12:30".toList, Or.inl rfl⟩⟩
+
+
 end PysparklingVerif.C18
